@@ -57,6 +57,132 @@ def bodies_with_closures(F, path):
     return out
 
 
+def mentions(t, what):
+    if t == what:
+        return True
+    if isinstance(t, tuple):
+        return any(mentions(x, what) for x in t)
+    if isinstance(t, list):
+        return any(mentions(x, what) for x in t)
+    return False
+
+
+def dead_atoms(w):
+    """[(id term, truth)] for every `self.dead.contains(id)` condition this world assumed"""
+    out = []
+    for k, v in w.assumptions:
+        if isinstance(k, tuple) and k and k[0] == 'atom':
+            t = k[1]
+            if isinstance(t, tuple) and t[0] == 'call' and t[1].endswith('HashSet::contains') and show(t[2][0]).endswith('dead'):
+                out.append((t[2][1], v))
+    return out
+
+
+def find_filter(t):
+    if isinstance(t, tuple):
+        if t and t[0] == 'call' and isinstance(t[1], str) and t[1].endswith('::filter') and len(t[2]) == 2:
+            return t
+        for x in t:
+            r = find_filter(x)
+            if r:
+                return r
+    return None
+
+
+def par_filter(F, res, name, path):
+    """rayon accessors: the parallel iterator over the inner arena is filtered by `!dead.contains(id)`"""
+    nop = Policy(effects=lambda p: True, inline=lambda p: False)
+
+    def thunk(st):
+        v = st.call_path(path, [sym('self'), sym('consumer')][:2 if 'drive' in path else 1], None)
+        f = find_filter(v)
+        if f is None:
+            return ('lit', 'nofilter', '')
+        return ('tuple', (f[2][0], st.apply(f[2][1], [sym('ent')], None)))
+    try:
+        ws = Evaluator(F, nop).run(thunk)
+    except EvalError as e:
+        res.error('accessor %s not analysable: %s' % (name, e))
+        return
+    bad = None
+    n = 0
+    for w in ws:
+        if w.outcome != 'return':
+            continue
+        n += 1
+        if w.value[0] != 'tuple':
+            bad = 'does not filter the inner parallel iterator'
+            continue
+        src, keep = w.value[1]
+        if 'inner' not in show(src):
+            bad = 'filters %s, not the inner arena' % show(src)[:60]
+        da = dead_atoms(w)
+        ident = ('field', sym('ent'), '0')
+        if show(keep) == 'True' and (ident, False) not in da:
+            bad = 'keeps an entry without `dead.contains(id)` being false'
+        if show(keep) == 'False' and (ident, True) not in da:
+            bad = 'drops a live entry'
+    if n == 0:
+        res.error('accessor %s: no returning world' % name)
+    elif bad:
+        res.bad('accessor/%s/liveness' % name, 'TombstoneArena %s %s' % (name, bad))
+    else:
+        res.ok('accessor/%s/liveness' % name, {'accessor': name, 'worlds': n, 'rule': 'parallel iterator filtered by !dead'})
+
+
+def accessor_worlds(F, res, accessors):
+    nop = Policy(effects=lambda p: True, inline=lambda p: False, loop_cut=3)
+    INNER = ('field', sym('self'), 'inner')
+    for name, path in sorted(accessors.items()):
+        if name.startswith('par_'):
+            par_filter(F, res, name, path)
+            continue
+        nargs = {'get': 2, 'get_mut': 2, 'contains': 2, 'index': 2, 'index_mut': 2}.get(name, 1)
+        try:
+            ws = Evaluator(F, nop).run_fn(path, [sym('self'), sym('id')][:nargs])
+        except EvalError as e:
+            res.error('accessor %s not analysable: %s' % (name, e))
+            continue
+        bad = None
+        n = 0
+        for w in ws:
+            if w.outcome != 'return':
+                continue
+            n += 1
+            da = dead_atoms(w)
+            if name in ('get', 'get_mut', 'index', 'index_mut'):
+                if mentions(w.value, INNER) and (sym('id'), False) not in da:
+                    bad = 'returns an item of the inner arena on a path where `dead.contains(id)` was not tested false'
+            elif name == 'contains':
+                if w.value == ('lit', True, 'bool') or show(w.value) == 'True':
+                    if (sym('id'), False) not in da:
+                        bad = 'answers true without `dead.contains(id)` being false'
+            elif name == 'len':
+                if 'Sub' not in show(w.value) or 'len(self.dead)' not in show(w.value) or 'len(self.inner)' not in show(w.value):
+                    bad = 'is not `inner.len() - dead.len()` (%s)' % show(w.value)[:80]
+            elif name == 'iter':
+                el = [t for t, v in da if v is False and 'elem' in show(t)]
+                if mentions(w.value, INNER) and not el:
+                    bad = 'yields entries of the inner arena that were not tested against `dead`'
+            elif name == 'iter_mut.next':
+                v = w.value
+                if isinstance(v, tuple) and v[0] == 'call' and v[1].endswith('Iterator::next'):
+                    asm = dict((show(k), x) for k, x in w.assumptions if not (isinstance(k, tuple) and k and k[0] == 'atom'))
+                    st = asm.get(show(v))
+                    is_none = st is not None and 'None' in show(st)
+                    tested = [t for t, tv in da if tv is False and mentions(t, v)]
+                    if not is_none and not tested:
+                        bad = 'can return the entry produced by %s without testing it against `dead`' % show(v)
+                elif mentions(v, INNER):
+                    bad = 'returns %s, not a tested entry of the inner iterator' % show(v)[:80]
+        if n == 0:
+            res.error('accessor %s: no returning world' % name)
+        elif bad:
+            res.bad('accessor/%s/liveness' % name, 'TombstoneArena %s %s' % (name, bad))
+        else:
+            res.ok('accessor/%s/liveness' % name, {'accessor': name, 'worlds': n, 'rule': 'handed-out entry tested !dead'})
+
+
 def run(ctx):
     F = ctx.F
     res = RuleResult('R-ARENA', 'tombstone arena: dead set append-only, accessors honour it, deletion isolated, dedup map consistent')
@@ -95,6 +221,7 @@ def run(ctx):
     }
     if ctx.config == 'parallel':
         accessors['par_iter'] = TA + 'par_iter'
+        accessors['par_iter_mut.drive'] = "<tombstone_arena::ParIterMut<'a, T> as rayon::iter::ParallelIterator>::drive_unindexed"
     for name, path in accessors.items():
         bodies = bodies_with_closures(F, path)
         if not bodies:
@@ -115,6 +242,8 @@ def run(ctx):
             res.ok('accessor/' + name, {'accessor': name, 'consults': 'dead'})
         else:
             res.bad('accessor/' + name, 'TombstoneArena::%s hands out / counts items without consulting the tombstone set' % name)
+    # (a3') the same accessors, decided on their worlds: whatever is handed out is known not to be dead
+    accessor_worlds(F, res, accessors)
     # (a4) delete
     try:
         pol = Policy(effects=[r'HashSet::insert$', r'Tombstone::on_delete$', r'HashMap::(remove|insert|get)$',
